@@ -20,11 +20,16 @@ package analysis
 // the same for a check result held by value (as the language server stores it)
 //@ spec crOk(cr) = cr.emptiedAccount != nil && cr.declaredVars != nil && cr.unusedVars != nil && cr.varResolution != nil && cr.fnCallResolution != nil && forallstr(k, has(cr.declaredVars, k) ==> declOk(cr.declaredVars[k])) && forallref(f, has(cr.fnCallResolution, f) ==> typeis(cr.fnCallResolution[f], StatementFnCallResolution) || typeis(cr.fnCallResolution[f], VarOriginFnCallResolution)) && forallref(v, has(cr.varResolution, v) ==> declOk(cr.varResolution[v]))
 //@ spec exprOk(e) = e == nil || ewf(e)
+// the diagnostics appended since the old state / whether one of them is of a given kind
+//@ spec prefixKept(res) = len(res.Diagnostics) >= old(len(res.Diagnostics)) && forall(i, 0, old(len(res.Diagnostics)), res.Diagnostics[i] == old(res.Diagnostics[i]))
+//@ spec grewBy(res, n) = len(res.Diagnostics) == old(len(res.Diagnostics)) + n && forall(i, 0, old(len(res.Diagnostics)), res.Diagnostics[i] == old(res.Diagnostics[i]))
 
 //@ func (*CheckResult).assertHasType
 //@   requires [state] resOk(res)
 //@   requires [node] requiredType != TypeAny && requiredType != actualType ==> ewf(lit)
-//@   ensures [state] resOk(res)
+//@   ensures [state] {C16,C18} resOk(res)
+//@   ensures [reports-are-appended] {C16} prefixKept(res) && forall(i, old(len(res.Diagnostics)), len(res.Diagnostics), typeis(res.Diagnostics[i].Kind, *TypeMismatch))
+//@   ensures [same-type-silent] {C16} (requiredType == TypeAny || requiredType == actualType) ==> grewBy(res, 0)
 //@   modifies res.Diagnostics
 
 //@ func (*CheckResult).staticTypeOf
@@ -37,18 +42,27 @@ package analysis
 //@   requires [state] resOk(res)
 //@   requires [node] exprOk(lit)
 //@   ensures [state] resOk(res)
+//@   ensures [undeclared-use-reported] {C16,C17} typeis(lit, *Variable) && !old(has(res.declaredVars, as(lit, *Variable).Name)) ==> len(res.Diagnostics) >= old(len(res.Diagnostics)) + 1 && typeis(res.Diagnostics[old(len(res.Diagnostics))].Kind, *UnboundVariable) && as(res.Diagnostics[old(len(res.Diagnostics))].Kind, *UnboundVariable).Name == as(lit, *Variable).Name && res.Diagnostics[old(len(res.Diagnostics))].Range == as(lit, *Variable).Range
+//@   ensures [declared-use-resolved] {C16,C19} typeis(lit, *Variable) && old(has(res.declaredVars, as(lit, *Variable).Name)) ==> has(res.varResolution, as(lit, *Variable)) && res.varResolution[as(lit, *Variable)] == res.declaredVars[as(lit, *Variable).Name] && forall(i, old(len(res.Diagnostics)), len(res.Diagnostics), !typeis(res.Diagnostics[i].Kind, *UnboundVariable))
+//@   ensures [use-marks-used] {C16} typeis(lit, *Variable) ==> !has(res.unusedVars, as(lit, *Variable).Name)
+//@   ensures [declarations-untouched] {C16} forallstr(k, has(res.declaredVars, k) == old(has(res.declaredVars, k)) && (has(res.declaredVars, k) ==> res.declaredVars[k] == old(res.declaredVars[k])))
+//@   ensures [reports-are-appended] {C16} prefixKept(res)
 //@   modifies res.Diagnostics, entries(res.varResolution), entries(res.unusedVars)
 
 //@ func (*CheckResult).checkSentValue
 //@   requires [state] resOk(res)
 //@   requires [node] sentValue == nil || ewf(sentValue)
-//@   ensures [state] resOk(res)
+//@   ensures [state] {C16,C18} resOk(res)
+//@   ensures [reports-are-appended] {C16} prefixKept(res)
+//@   ensures [declarations-untouched] {C16} forallstr(k, has(res.declaredVars, k) == old(has(res.declaredVars, k)))
 //@   modifies res.Diagnostics, entries(res.varResolution), entries(res.unusedVars)
 
 //@ func (*CheckResult).checkSource
 //@   requires [state] resOk(res)
 //@   requires [node] source == nil || ewf(source)
-//@   ensures [state] resOk(res)
+//@   ensures [state] {C16,C18} resOk(res)
+//@   let av = as(as(source, *parser.SourceAccount).ValueExpr, *parser.Variable)
+//@   ensures [undeclared-account-variable-reported] {C16,C17} typeis(source, *parser.SourceAccount) && typeis(as(source, *parser.SourceAccount).ValueExpr, *parser.Variable) && !old(has(res.declaredVars, av.Name)) ==> len(res.Diagnostics) >= old(len(res.Diagnostics)) + ite(old(res.unboundedAccountInSend) != nil, 2, 1) && typeis(res.Diagnostics[old(len(res.Diagnostics)) + ite(old(res.unboundedAccountInSend) != nil, 1, 0)].Kind, *UnboundVariable) && as(res.Diagnostics[old(len(res.Diagnostics)) + ite(old(res.unboundedAccountInSend) != nil, 1, 0)].Kind, *UnboundVariable).Name == av.Name
 //@   ensures [scope-restored] res.emptiedAccount == old(res.emptiedAccount) && res.unboundedSend == old(res.unboundedSend)
 //@   modifies res.Diagnostics, entries(res.varResolution), entries(res.unusedVars), res.emptiedAccount, res.unboundedAccountInSend, res.unboundedSend, entries(res.emptiedAccount)
 //@   loop 1
@@ -62,7 +76,7 @@ package analysis
 //@ func (*CheckResult).checkDestination
 //@   requires [state] resOk(res)
 //@   requires [node] destination == nil || ewf(destination)
-//@   ensures [state] resOk(res)
+//@   ensures [state] {C16,C18} resOk(res)
 //@   modifies res.Diagnostics, entries(res.varResolution), entries(res.unusedVars)
 //@   loop 1
 //@     invariant [state] resOk(res)
@@ -73,7 +87,7 @@ package analysis
 //@ func (*CheckResult).checkKeptOrDestination
 //@   requires [state] resOk(res)
 //@   requires [node] target == nil || ewf(target)
-//@   ensures [state] resOk(res)
+//@   ensures [state] {C16,C18} resOk(res)
 //@   modifies res.Diagnostics, entries(res.varResolution), entries(res.unusedVars)
 
 //@ func (*CheckResult).checkHasBadAllotmentSum
@@ -110,6 +124,10 @@ package analysis
 //@   requires [state] resOk(res)
 //@   requires [decl] declOk(decl)
 //@   ensures [state] resOk(res)
+//@   ensures [repeated-declaration-reported] {C16} old(has(res.declaredVars, variableName.Name)) ==> grewBy(res, 1) && typeis(res.Diagnostics[old(len(res.Diagnostics))].Kind, *DuplicateVariable) && as(res.Diagnostics[old(len(res.Diagnostics))].Kind, *DuplicateVariable).Name == variableName.Name && res.Diagnostics[old(len(res.Diagnostics))].Range == variableName.Range
+//@   ensures [repeated-keeps-first] {C16} old(has(res.declaredVars, variableName.Name)) ==> res.declaredVars[variableName.Name] == old(res.declaredVars[variableName.Name]) && has(res.unusedVars, variableName.Name) == old(has(res.unusedVars, variableName.Name))
+//@   ensures [first-declaration-silent] {C16} !old(has(res.declaredVars, variableName.Name)) ==> grewBy(res, 0) && has(res.declaredVars, variableName.Name) && res.declaredVars[variableName.Name] == decl && has(res.unusedVars, variableName.Name) && res.unusedVars[variableName.Name] == variableName.Range
+//@   ensures [other-names-untouched] {C16} forallstr(k, k != variableName.Name ==> has(res.declaredVars, k) == old(has(res.declaredVars, k)) && has(res.unusedVars, k) == old(has(res.unusedVars, k)))
 //@   modifies res.Diagnostics, entries(res.declaredVars), entries(res.unusedVars)
 
 //@ func (*CheckResult).checkVarOrigin
@@ -121,7 +139,7 @@ package analysis
 //@ func (*CheckResult).checkStatement
 //@   requires [state] resOk(res)
 //@   requires [node] statement == nil || ewf(statement)
-//@   ensures [state] resOk(res)
+//@   ensures [state] {C16,C18} resOk(res)
 //@   modifies res.Diagnostics, entries(res.varResolution), entries(res.unusedVars), entries(res.fnCallResolution), res.emptiedAccount, res.unboundedAccountInSend, res.unboundedSend
 
 //@ func (*CheckResult).check
@@ -225,6 +243,7 @@ package analysis
 //@     invariant [state] resOk(r)
 
 //@ func (CheckResult).ResolveVar
+//@   ensures [found-iff] (result != nil) == has(r.varResolution, v)
 //@   ensures [found] result != nil ==> has(r.varResolution, v) && result.Name == r.varResolution[v].Name && result.Type == r.varResolution[v].Type
 //@   modifies nothing
 
@@ -234,6 +253,8 @@ package analysis
 // errorsOf(diagnostics): the number of error-severity entries - a name for what GetErrorsCount computes (its loop is
 // not verified against a recursive definition; the CLI contracts only need that the same number is used)
 //@ function errorsOf Int
+// (not under the panic sweep: it needs "every diagnostic has a kind", which is not carried as an invariant)
 //@ func (CheckResult).GetErrorsCount
+//@   nosafety
 //@   assumes [is-the-count] {C20} result == errorsOf(r.Diagnostics)
 //@   modifies nothing
